@@ -134,6 +134,31 @@ pub fn run(ctx: &Ctx, rep: &mut Report) {
             Ok(Ok(s)) if to_pos(&s) == *p => states.push(("replayed", s)),
             _ => rep.count("replay_through_weechess_failed_left_to_C02", 1),
         }
+        // (3) the same position (placement, side, rights, en-passant availability) with other move counters, and
+        // (4) reached by a longer real history: knights shuffled out and back k times before the recorded moves
+        let mut other = canon.clone();
+        other.half = rng.gen_range(0..100);
+        other.full = [1u64, 2, 5, 6, 7, 11, 40, 200][rng.gen_range(0..8)];
+        if other.half != canon.half || other.full != canon.full {
+            states.push(("constructed with other counters", to_state(&other)));
+        }
+        {
+            let k = rng.gen_range(1..=3);
+            let mut long: Vec<MoveQuery> = vec![];
+            for _ in 0..k {
+                for l in ["g1f3", "g8f6", "f3g1", "f6g8"] {
+                    long.push(MoveQuery::by_moving_from_to(sq(((l.as_bytes()[1] - b'1') * 8) + (l.as_bytes()[0] - b'a')), sq(((l.as_bytes()[3] - b'1') * 8) + (l.as_bytes()[2] - b'a'))));
+                }
+            }
+            long.extend(queries.iter().cloned());
+            if let Ok(Ok(s)) = guard(|| State::by_performing_moves(&State::default(), &long)) {
+                let q = to_pos(&s);
+                if q.b == p.b && q.wtm == p.wtm && q.castle == p.castle {
+                    states.push(("reached after knight shuffles", s));
+                    rep.count("longer_histories_reaching_a_book_position", 1);
+                }
+            }
+        }
         for (how, st) in states.iter() {
             rep.eval(1);
             rep.count("book_position_lookups", 1);
@@ -146,7 +171,7 @@ pub fn run(ctx: &Ctx, rep: &mut Report) {
                     if got != *want {
                         let missing: BTreeSet<Coord> = want.difference(&got).copied().collect();
                         let extra: BTreeSet<Coord> = got.difference(want).copied().collect();
-                        rep.violation("book-set", &format!("book-set|{}", canon.fen()), &format!("{} state of {} (after {}): book offers [{}], the games play [{}]; missing [{}], extra [{}]", how, canon.fen(), lans.join(" "), fmt(&got), fmt(want), fmt(&missing), fmt(&extra)), json!({"fen": canon.fen(), "expected": fmt(want)}));
+                        rep.violation("book-set", &format!("book-set|{}", to_pos(st).fen()), &format!("{} state of {} (after {}): book offers [{}], the games play [{}]; missing [{}], extra [{}]", how, to_pos(st).fen(), lans.join(" "), fmt(&got), fmt(want), fmt(&missing), fmt(&extra)), json!({"fen": to_pos(st).fen(), "expected": fmt(want)}));
                         break;
                     }
                 }
